@@ -51,6 +51,7 @@ var CellCanon func(oid int, format int, raw []byte) string
 // trace of the specification: the server's byte stream is framed and decoded
 // strictly; everything else is passed through.
 type Projector struct {
+	sawCancel bool
 	Conn      int
 	stream    []byte
 	sslWait   int   // single-byte SSL replies still expected
@@ -76,6 +77,12 @@ type Projector struct {
 func (p *Projector) Feed(e mem.Ev) {
 	if c, has := e["conn"]; has && AsInt(c) != p.Conn && p.Conn != 0 {
 		return
+	}
+	if e["k"] == "send" && S(AsM(e["m"]), "t") == "Cancel" {
+		p.sawCancel = true
+	}
+	if e["k"] == "cb" && S(AsM(e["c"]), "name") == "closeconn" && !p.sawCancel {
+		return // the close hook is judged only on connections that carried a CancelRequest
 	}
 	if e["k"] == "x-global" && p.Proj != nil && !p.Proj.Global {
 		return
